@@ -36,6 +36,8 @@ REQUIRED = {"refusals_judged": 300, "client_codes_compared": 1000, "real_client_
 ACCEPT = {
     "read-wo": {0x06010001}, "write-ro": {0x06010002}, "missing-index": {0x06020000}, "missing-sub": {0x06090011},
     "too-long": {0x06070010, 0x06070012}, "too-short": {0x06070010, 0x06070013}, "no-value": {0x060A0023, 0x08000024},
+    # both conditions hold at once: the text names a code for each and no priority
+    "write-ro-wrong-length": {0x06010002, 0x06070010, 0x06070012, 0x06070013},
     "toggle": {0x05030000}, "unknown-command": {0x05040001}, "block-download": {0x05040001},
 }
 DOCUMENTED = [0x05030000, 0x05040000, 0x05040001, 0x05040002, 0x05040003, 0x05040004, 0x05040005, 0x06010000, 0x06010001,
@@ -167,6 +169,20 @@ def server_refusals(ctx, h, rng):
                 h.unchanged(snap, case, "write-ro")
                 h.flush(case)
                 after()
+            if vm.dt in R.NUMERIC:
+                # ... and with a payload of the wrong length on top: refused all the same, nothing stored
+                w = R.width(vm.dt) // 8
+                for n in sorted({max(0, w - 1), w + 1, rng.choice([x for x in range(0, 10) if x != w])}):
+                    for mode in ("expedited", "segmented"):
+                        if mode == "expedited" and not 1 <= n <= 4:
+                            continue
+                        data = bytes(rng.getrandbits(8) for _ in range(n))
+                        case = case_of("write-ro-wrong-length", vm, mode=mode, data=data)
+                        snap = h.snapshot()
+                        res = c.download(*mux, data, mode=mode, size_indicated=rng.random() < 0.5)
+                        judge(ctx, h, "write-ro-wrong-length", res, mux, case, mode)
+                        h.unchanged(snap, case, "write-ro-wrong-length")
+                        h.flush(case)
         # ---- numeric entry x wrong payload length
         if "w" in vm.access and vm.dt in R.NUMERIC:
             w = R.width(vm.dt) // 8
